@@ -13,7 +13,7 @@
 #include "vf_alloc.h"
 #include "vf_rec.h"
 
-enum { K_N8_PAIRS = VC_USER, K_N16_PAIRS, K_CONSERVATIVE, K_GROWTH, K_SERSIZE, K_GRID, K_E2E, K_E2E_REFUSED, K_E2E_GRANTED, K_NARROW_RUNS };
+enum { K_N8_PAIRS = VC_USER, K_N16_PAIRS, K_CONSERVATIVE, K_GROWTH, K_SERSIZE, K_GRID, K_E2E, K_E2E_REFUSED, K_E2E_GRANTED, K_NARROW_RUNS, K_SERIALIZE_SMALL, K_NARROW_SERIALIZE };
 #define N16_JOBS 64
 typedef unsigned __int128 u128;
 
@@ -40,6 +40,7 @@ static void run_narrow(const char* envname, const char* args, int cnt_pairs_slot
       else if (!strcmp(name, "conservative_refusals")) vf_cnt(K_CONSERVATIVE, v);
       else if (!strcmp(name, "growth_steps")) { vf_cnt(K_GROWTH, v); vf_cnt(VC_EVAL, v); vf_cnt(VC_TRACES, v); }
       else if (!strcmp(name, "sersize_cases")) { vf_cnt(K_SERSIZE, v); vf_cnt(VC_EVAL, v); vf_cnt(VC_TRACES, v); }
+      else if (!strcmp(name, "serialize_calls")) { vf_cnt(K_NARROW_SERIALIZE, v); vf_cnt(VC_EVAL, v); vf_cnt(VC_TRACES, v); }
     } else if (!strncmp(line, "FAIL ", 5))
       vf_fail(NULL, "[%s %s] %s", envname, args, line + 5);
     else if (L)
@@ -154,16 +155,30 @@ static void e2e_unit(void) {
             va_release_all();
             break;
           }
-          default: { /* serialized size of a definite string whose declared length is near SIZE_MAX */
-            name = "cbor_serialized_size(string of declared length n)";
-            cbor_item_t* s = cbor_new_definite_bytestring();
-            s->metadata.bytestring_metadata.length = n; /* no buffer is touched by size computation */
-            uint64_t got = cbor_serialized_size(s);
-            u128 want = (u128)n + (n <= 23 ? 1 : n <= 0xff ? 2 : n <= 0xffff ? 3 : n <= 0xffffffffull ? 5 : 9);
-            if (!((want <= UINT64_MAX && got == (uint64_t)want) || (want > UINT64_MAX && got == 0)))
-              vf_fail(NULL, "cbor_serialized_size of a string with declared length %#" PRIx64 " = %#" PRIx64 ", exact total is %s%#" PRIx64, n, got, want > UINT64_MAX ? "2^64+" : "", (uint64_t)want);
-            s->metadata.bytestring_metadata.length = 0;
-            cbor_decref(&s);
+          default: { /* serialized size of a definite string whose declared length is near SIZE_MAX, and the serializer itself on it */
+            name = "cbor_serialized_size / cbor_serialize (string of declared length n)";
+            for (unsigned j = 0; j < (k == 64 && dlt == -1 ? 25u : 1u); j++) /* at the very top: SIZE_MAX - j for j = 0..24 */
+              for (int text = 0; text < 2; text++) {
+                uint64_t nn = n - j;
+                cbor_item_t* s = text ? cbor_new_definite_string() : cbor_new_definite_bytestring();
+                /* client-visible struct: declare the length without providing the bytes - nothing below may touch them */
+                if (text) s->metadata.string_metadata.length = nn; else s->metadata.bytestring_metadata.length = nn;
+                uint64_t got = cbor_serialized_size(s);
+                u128 want = (u128)nn + (nn <= 23 ? 1 : nn <= 0xff ? 2 : nn <= 0xffff ? 3 : nn <= 0xffffffffull ? 5 : 9);
+                if (!((want <= UINT64_MAX && got == (uint64_t)want) || (want > UINT64_MAX && got == 0)))
+                  vf_fail(NULL, "cbor_serialized_size of a %s string with declared length %#" PRIx64 " = %#" PRIx64 ", exact total is %s%#" PRIx64, text ? "text" : "byte", nn, got, want > UINT64_MAX ? "2^64+" : "", (uint64_t)want);
+                /* a buffer the encoding cannot fit into: 0, and no byte of the (absent) payload is read or written */
+                static const size_t BS[] = {0, 1, 5, 9, 10, 16, 64, 4096};
+                for (unsigned b = 0; b < sizeof BS / sizeof BS[0]; b++) {
+                  if (want <= BS[b]) continue;
+                  uint8_t* o = vf_guard_end() - BS[b];
+                  size_t w = cbor_serialize(s, o, BS[b]);
+                  vf_cnt(K_SERIALIZE_SMALL, 1);
+                  if (w != 0) vf_fail(NULL, "cbor_serialize of a %s string with declared length %#" PRIx64 " into %zu bytes returned %zu", text ? "text" : "byte", nn, BS[b], w);
+                }
+                if (text) s->metadata.string_metadata.length = 0; else s->metadata.bytestring_metadata.length = 0;
+                cbor_decref(&s);
+              }
             need = 0;
             succeeded = false;
           }
@@ -215,6 +230,6 @@ struct vf_check vf_the_check = {
                     "narrow programs are built with ASan/UBSan: an under-allocation that is then written to is also a heap-buffer-overflow report"},
     .counters = {[VC_EVAL] = "cases_judged", [VC_DISTINCT] = "distinct_operand_pairs", [VC_TRANS] = "unused", [VC_TRACES] = "executed_on_implementation", [K_N8_PAIRS] = "pairs_at_8_bit_size_t",
                  [K_N16_PAIRS] = "pairs_at_16_bit_size_t", [K_CONSERVATIVE] = "conservative_refusals_observed", [K_GROWTH] = "growth_steps_at_narrow_widths", [K_SERSIZE] = "serialized_size_cases_at_narrow_widths",
-                 [K_GRID] = "grid_cells_at_64_bit", [K_E2E] = "end_to_end_calls", [K_E2E_REFUSED] = "end_to_end_calls_that_failed_or_need_no_memory", [K_E2E_GRANTED] = "end_to_end_calls_granted",
+                 [K_GRID] = "grid_cells_at_64_bit", [K_E2E] = "end_to_end_calls", [K_E2E_REFUSED] = "end_to_end_calls_that_failed_or_need_no_memory", [K_E2E_GRANTED] = "end_to_end_calls_granted", [K_NARROW_SERIALIZE] = "serialize_calls_at_narrow_widths", [K_SERIALIZE_SMALL] = "serialize_calls_on_strings_of_huge_declared_length_into_small_buffers",
                  [K_NARROW_RUNS] = "narrow_program_runs"},
     .init = init, .units = units, .unit = unit, .replay = replay};
